@@ -660,11 +660,54 @@ static inline char *safec_fmt_find_n(const char *fmt, int is_scanf) {
         if (*p++ != '%')
             continue;
         start = p - 1;
-        /* flags, '*', field width, precision, positional argument: none of these can be a conversion */
-        while (*p == '-' || *p == '+' || *p == ' ' || *p == '#' || *p == '0' || *p == '*' ||
-               *p == '\'' || *p == '.' || *p == '$' || *p == 'I' || (*p >= '1' && *p <= '9') ||
-               (is_scanf && *p == 'm'))
-            p++;
+        /* positional argument, flags, field width, precision - in libc's order, each part at most once */
+#define SAFEC_FMT_DIGITS(p)                                                    \
+    while (*(p) >= '0' && *(p) <= '9')                                         \
+        (p)++
+        if (is_scanf) { /* '*' assignment suppression, ' grouping, I, width, m */
+            if (*p == '*')
+                p++;
+            if (*p == '\'')
+                p++;
+            if (*p == 'I')
+                p++;
+            SAFEC_FMT_DIGITS(p);
+            if (*p == '$') /* n$ */ {
+                p++;
+                if (*p == '*')
+                    p++;
+                SAFEC_FMT_DIGITS(p);
+            }
+            if (*p == 'm')
+                p++;
+        } else {
+            SAFEC_FMT_DIGITS(p); /* n$ or, without flags, already the width */
+            if (*p == '$')
+                p++;
+            while (*p == '-' || *p == '+' || *p == ' ' || *p == '#' || *p == '0' || *p == '\'' ||
+                   *p == 'I')
+                p++;
+            if (*p == '*') {
+                p++;
+                SAFEC_FMT_DIGITS(p);
+                if (*p == '$')
+                    p++;
+            } else {
+                SAFEC_FMT_DIGITS(p);
+            }
+            if (*p == '.') {
+                p++;
+                if (*p == '*') {
+                    p++;
+                    SAFEC_FMT_DIGITS(p);
+                    if (*p == '$')
+                        p++;
+                } else {
+                    SAFEC_FMT_DIGITS(p);
+                }
+            }
+        }
+#undef SAFEC_FMT_DIGITS
         /* at most one length modifier: hh h l ll L q j z Z t (C23: wN, wfN) */
         if (*p == 'h') {
             p++;
@@ -709,11 +752,54 @@ static inline wchar_t *safec_wfmt_find_n(const wchar_t *fmt, int is_scanf) {
         if (*p++ != L'%')
             continue;
         start = p - 1;
-        /* flags, '*', field width, precision, positional argument: none of these can be a conversion */
-        while (*p == L'-' || *p == L'+' || *p == L' ' || *p == L'#' || *p == L'0' || *p == L'*' ||
-               *p == L'\'' || *p == L'.' || *p == L'$' || *p == L'I' || (*p >= L'1' && *p <= L'9') ||
-               (is_scanf && *p == L'm'))
-            p++;
+        /* positional argument, flags, field width, precision - in libc's order, each part at most once */
+#define SAFEC_FMT_DIGITS(p)                                                    \
+    while (*(p) >= L'0' && *(p) <= L'9')                                         \
+        (p)++
+        if (is_scanf) { /* '*' assignment suppression, ' grouping, I, width, m */
+            if (*p == L'*')
+                p++;
+            if (*p == L'\'')
+                p++;
+            if (*p == L'I')
+                p++;
+            SAFEC_FMT_DIGITS(p);
+            if (*p == L'$') /* n$ */ {
+                p++;
+                if (*p == L'*')
+                    p++;
+                SAFEC_FMT_DIGITS(p);
+            }
+            if (*p == L'm')
+                p++;
+        } else {
+            SAFEC_FMT_DIGITS(p); /* n$ or, without flags, already the width */
+            if (*p == L'$')
+                p++;
+            while (*p == L'-' || *p == L'+' || *p == L' ' || *p == L'#' || *p == L'0' || *p == L'\'' ||
+                   *p == L'I')
+                p++;
+            if (*p == L'*') {
+                p++;
+                SAFEC_FMT_DIGITS(p);
+                if (*p == L'$')
+                    p++;
+            } else {
+                SAFEC_FMT_DIGITS(p);
+            }
+            if (*p == L'.') {
+                p++;
+                if (*p == L'*') {
+                    p++;
+                    SAFEC_FMT_DIGITS(p);
+                    if (*p == L'$')
+                        p++;
+                } else {
+                    SAFEC_FMT_DIGITS(p);
+                }
+            }
+        }
+#undef SAFEC_FMT_DIGITS
         /* at most one length modifier: hh h l ll L q j z Z t (C23: wN, wfN) */
         if (*p == L'h') {
             p++;
